@@ -60,7 +60,9 @@ func (s *Stats) probe(k string) {
 type testingT interface{}
 type simT = *testing.T
 
-var Kinds = append([]string{"mesh3", "mesh2", "mesh3", "mesh3big"}, prefixed("map:", MapKinds)...)
+// (sixteen kinds and sixteen worker processes: every process stays with one kind,
+// so the heavy kinds - mesh3big takes seconds per case - cost one process, not all)
+var Kinds = append([]string{"mesh3", "mesh2", "mesh3mid", "mesh3big"}, prefixed("map:", MapKinds)...)
 
 func prefixed(p string, s []string) []string {
 	var out []string
@@ -78,6 +80,8 @@ func RunCase(t *testing.T, c *Case, src, sched *choice.Source, st *Stats) (fs []
 		return runMesh3(t, src, sched, st)
 	case c.Kind == "mesh2":
 		return runMesh2(src, st)
+	case c.Kind == "mesh3mid":
+		return runMesh3Mid(src, st)
 	case c.Kind == "mesh3big":
 		return runMesh3Big(src, st)
 	case strings.HasPrefix(c.Kind, "map:"):
